@@ -50,12 +50,13 @@ Definition final_agrees (i : input) (tr : trace) (f : final) : bool :=
   | None => false
   end.
 
-Record case := { c_in : input; c_tr : trace; c_fin : final; c_synced : bool (* the last training operation was a completed sync *) }.
+Record case := { c_in : input; c_tr : trace; c_fin : final; c_synced : bool (* the last training operation was a completed sync *);
+                 c_syncs : list (list (option Z) * list (option Z)) (* per completed sync: the training model's grads just before / just after it *) }.
 
 Definition agree (c : case) : bool := accepted (c_in c) (c_tr c) && final_agrees (c_in c) (c_tr c) (c_fin c).
 
 (* the property on the implementation: the monitor, and after a completed sync both sides hold equal values, the
-   training module is in training mode (its grads are compared with the model's in [agree]) *)
+   training module is in training mode; every completed sync leaves the training model with the grads it had *)
 Definition prop_ok (c : case) : bool :=
-  C19_ok (c_tr c) &&
+  C19_ok (c_tr c) && forallb (fun p => ozs_eqb (fst p) (snd p)) (c_syncs c) &&
   (if c_synced c then zs_eqb (f_tparams (c_fin c)) (f_iparams (c_fin c)) && f_tmode (c_fin c) && negb (Nat.eqb (f_tref (c_fin c)) (f_iref (c_fin c))) else true).
